@@ -9,6 +9,7 @@ import (
 	"runtime"
 
 	"github.com/ClickHouse/ch-go/compress"
+	"github.com/ClickHouse/ch-go/proto"
 
 	"verif/refwire"
 	"verif/vk"
@@ -84,7 +85,7 @@ func (g *growStream) Read(p []byte) (int, error) {
 
 // C05 — compressed frames round-trip and any corrupted frame is rejected.
 func C05(c *vk.Ctx) {
-	c.Rule("payloads of every length 0..N (quick 512, thorough 4096) x {zero, counter, incompressible, repetitive} x {None, LZ4, ZSTD, LZ4HC default and levels 1..12}, sizes 64 KiB +-1 / 1 MiB / 4 MiB once per method; library frames are also parsed by the reference frame model and reference frames are read by the library; all sequences of <= 3 frames over a 5-payload alphabet with mixed methods x read sizes 1..64 and len-1, len, len+1; corruption: every byte offset of representative frames x {8 bit flips, 00, FF} (thorough: all 255 other values); size fields set to limit+1, 2^31, 2^32-1 with the checksum recomputed, allocation measured; explicit-state search over histories of <= 4 (thorough 5) steps of {append good frame, append corrupted frame, Read n}. distinct_nontrivial = distinct (payload, method) / (frame, mutation) / history cases.")
+	c.Rule("payloads of every length 0..N (quick 512, thorough 4096) x {zero, counter, incompressible, repetitive} x {None, LZ4, ZSTD, LZ4HC default and levels 1..12}, sizes 64 KiB +-1 / 1 MiB / 4 MiB once per method; library frames are also parsed by the reference frame model and reference frames are read by the library; all sequences of <= 3 frames over a 5-payload alphabet with mixed methods x read sizes 1..64 and len-1, len, len+1; corruption: every byte offset of representative frames x {8 bit flips, 00, FF} (thorough: all 255 other values); size fields set to limit+1, 2^31, 2^32-1 with the checksum recomputed, allocation measured; explicit-state search over histories of <= 4 (thorough 5) steps of {append good frame, append corrupted frame, Read n}; strings of 1 MiB -1 / +0 / +1 and 2 MiB + 5 read through proto.Reader with compression enabled (frames of <= 1 MiB, three methods), whole and with one byte altered in each frame. distinct_nontrivial = distinct (payload, method) / (frame, mutation) / history cases.")
 	quick := c.Quick()
 	maxLen := 512
 	if !quick {
@@ -405,6 +406,63 @@ func C05(c *vk.Ctx) {
 		c.DistinctN(1)
 	}
 	c.AddStates(int64(len(states)), transitions, int64(len(hist)))
+	// the compressed stream as the protocol reader consumes it: a string longer than the 1 MiB
+	// step in which proto.Reader takes strings, spread over frames of at most 1 MiB; every read
+	// path of the reader must go through the decompressor (the value read must be the payload,
+	// and an altered byte in any frame must give an error)
+	if c.Shard == 0 || c.Only != "" {
+		for _, n := range []int{1<<20 - 1, 1 << 20, 1<<20 + 1, 2<<20 + 5} {
+			for _, method := range []byte{refwire.MethodLZ4, refwire.MethodZSTD, refwire.MethodNone} {
+				id := fmt.Sprintf("proto-reader/string=%d/method=%#x", n, method)
+				if c.Only != "" && c.Only != id {
+					continue
+				}
+				c.Current(id)
+				val := c05Payload(2, n, int64(n))
+				var plain refwire.W
+				plain.UVarint(uint64(n))
+				plain.Raw(val)
+				plain.Byte(0x7e) // a sentinel after the string
+				var frames []byte
+				var starts []int
+				for off := 0; off < len(plain.B); off += 1 << 20 {
+					starts = append(starts, len(frames))
+					frames = append(frames, refwire.Compress(method, plain.B[off:min(off+1<<20, len(plain.B))])...)
+				}
+				msg, fn := vk.Recover(func() {
+					r := proto.NewReader(bytes.NewReader(frames))
+					r.EnableCompression()
+					got, err := r.StrBytes()
+					if err != nil || !bytes.Equal(got, val) {
+						c.Violation("C05/proto-reader/round-trip", id, fmt.Sprintf("a %d-byte string read through the compressed reader: err=%v, %d bytes returned, equal=%v", n, err, len(got), bytes.Equal(got, val)), nil)
+						return
+					}
+					if b, err := r.ReadByte(); err != nil || b != 0x7e {
+						c.Violation("C05/proto-reader/stream-position", id, fmt.Sprintf("after the string the reader is not at the sentinel: byte %#x err=%v", b, err), nil)
+						return
+					}
+					// one byte altered in each frame in turn
+					for fi, st := range starts {
+						bad := append([]byte{}, frames...)
+						bad[st+8] ^= 0x10 // a byte of the frame checksum itself
+						rb := proto.NewReader(bytes.NewReader(bad))
+						rb.EnableCompression()
+						if got, err := rb.StrBytes(); err == nil {
+							c.Violation("C05/proto-reader/altered-frame-accepted", fmt.Sprintf("%s/frame=%d", id, fi), fmt.Sprintf("frame %d altered at byte 8: the string is read without error (%d bytes)", fi, len(got)), nil)
+							return
+						}
+						c.Eval("proto reader", 1)
+						c.DistinctN(1)
+					}
+				})
+				if msg != "" {
+					c.Violation("C05/panic/"+fn, id, msg, nil)
+				}
+				c.Eval("proto reader", 1)
+				c.DistinctN(1)
+			}
+		}
+	}
 	c.Sample(map[string]any{"history": []string{"good frame A", "corrupted frame (payload bit flipped)", "Read(5)", "Read(100)"}, "oracle": "bytes returned so far are a prefix of the payloads of frames whose checksum verified"})
 }
 
